@@ -173,7 +173,14 @@ def _gen_info_arg(g, registered_bias=0.6):
     r = mk_registry(g)
     infos = list(r._services.values())
     if infos and g.rng.random() < registered_bias:
-        return r, g.rng.choice(infos)
+        old = g.rng.choice(infos)
+        if g.rng.random() < 0.5:
+            return r, old
+        # a NEW ServiceInfo for the same instance name (what update_service is given): other port / host / subtype
+        from zeroconf import ServiceInfo
+        ty = old.type if g.rng.random() < 0.5 else '_sub1._sub.' + old.type.split('._sub.')[-1]
+        host = old.server if g.rng.random() < 0.6 else g.rng.choice(HOSTS)
+        return r, ServiceInfo(ty, old.name, 81, 0, 0, {'k': 'w'}, host, host_ttl=60, other_ttl=100, addresses=[b'\x05\x06\x07\x08'])
     return r, mk_info(g, set())
 
 
